@@ -937,7 +937,7 @@ func scenarios() []schedrun.Scenario {
 			})
 		}},
 		// forge relay path: the backend thread relays, the client replies to what it has seen
-		{Name: "causal-relay", Quick: -1, Thorough: -1, Body: func(x *sched.X) {
+		{Name: "causal-relay", Quick: 3, Thorough: 5, Body: func(x *sched.X) {
 			r := newRelayEnv(x, true)
 			done := false
 			x.Go("backend", func() { r.backendMsg(c13Op{K: "B", I: 5}); r.backendMsg(c13Op{K: "B", I: 6}); done = true })
